@@ -31,6 +31,9 @@ pub struct Tamper {
     /// send only the first k (>= 1) nodes of the path; everything else (parent hashes over the old upper nodes, commit
     /// secret = the path secret after the last node sent, tags) is made consistent with that
     pub truncate_to: Option<usize>,
+    /// the committer's leaf carries only the first k bytes of its (otherwise right) parent hash, k = 0: none at all;
+    /// everything after that (leaf signature, tree hash, HPKE context, tags) is computed over that leaf
+    pub leaf_parent_hash_prefix: Option<usize>,
 }
 
 pub struct ForgeInput<'a> {
@@ -161,6 +164,9 @@ pub fn forge(inp: &ForgeInput, tamper: &Tamper) -> Option<Forged> {
         put_opaque(&mut input, &pn.parent_hash);
         put_opaque(&mut input, &sib);
         hash = alg.hash(&input);
+    }
+    if let Some(k) = tamper.leaf_parent_hash_prefix {
+        hash.truncate(k.min(hash.len().saturating_sub(1)));
     }
     let g = inp.genuine;
     let mut lbody = g[leaf_sp.start..l_sigkey.end].to_vec();
